@@ -84,6 +84,8 @@ pub struct Driver {
     /// the commit whose call is in flight / last failed: its complete state is an admissible storage state
     pub attempted: Option<BTreeSet<u64>>,
     pub first_error_at: Option<usize>,
+    /// (opstamp returned, payload) of the last commit that returned Ok
+    pub last_commit: Option<(u64, Option<String>)>,
 }
 
 pub fn writer_options(cfg: &WlConfig) -> IndexWriterOptions {
@@ -131,7 +133,7 @@ pub fn read_ids_of(index: &Index) -> Result<BTreeSet<u64>, String> {
 
 impl Driver {
     pub fn new(sim: SimDirectory, cfg: &WlConfig) -> Driver {
-        Driver { sim, real_dir: None, index: None, writer: None, reader: None, cfg: cfg.clone(), model: Model { history: vec![BTreeSet::new()], ..Default::default() }, calls: vec![], attempted: None, first_error_at: None }
+        Driver { sim, real_dir: None, index: None, writer: None, reader: None, cfg: cfg.clone(), model: Model { history: vec![BTreeSet::new()], ..Default::default() }, calls: vec![], attempted: None, first_error_at: None, last_commit: None }
     }
 
     /// index creation (W1): returns Err text on failure
@@ -187,12 +189,25 @@ impl Driver {
                 Some(w) => {
                     self.attempted = Some(self.model.working.clone());
                     if s == Step::Commit {
-                        w.commit().map(|_| ()).map_err(|e| format!("{e:?}"))
+                        match w.commit() {
+                            Ok(o) => {
+                                self.last_commit = Some((o, None));
+                                Ok(())
+                            }
+                            Err(e) => Err(format!("{e:?}")),
+                        }
                     } else {
+                        let payload = format!("payload-{}", self.model.history.len());
                         match w.prepare_commit() {
                             Ok(mut pc) => {
-                                pc.set_payload("payload");
-                                pc.commit().map(|_| ()).map_err(|e| format!("{e:?}"))
+                                pc.set_payload(&payload);
+                                match pc.commit() {
+                                    Ok(o) => {
+                                        self.last_commit = Some((o, Some(payload)));
+                                        Ok(())
+                                    }
+                                    Err(e) => Err(format!("{e:?}")),
+                                }
                             }
                             Err(e) => Err(format!("{e:?}")),
                         }
@@ -319,6 +334,17 @@ pub fn directory_exact(sim: &SimDirectory, suffix: &str, when: &str) -> Result<(
     let want_managed: BTreeSet<String> = wantf.iter().filter(|f| !f.starts_with('.')).cloned().collect();
     if managed != want_managed {
         return Err((format!("managed_list_differs{suffix}"), format!("{when} the managed list is {managed:?} but the files that exist are {want_managed:?}")));
+    }
+    Ok(())
+}
+
+/// meta.json's (opstamp, payload) must be those of the last commit that returned Ok (merges re-publish them)
+pub fn commit_identity(sim: &SimDirectory, last: &Option<(u64, Option<String>)>) -> Result<(), (String, String)> {
+    let Some((o, p)) = last else { return Ok(()) };
+    let idx = Index::open(sim.clone()).map_err(|e| ("reopen_fails".to_string(), format!("{e:?}")))?;
+    let m = idx.load_metas().map_err(|e| ("reopen_fails".to_string(), format!("{e:?}")))?;
+    if m.opstamp != *o || m.payload != *p {
+        return Err(("commit_identity_differs".to_string(), format!("meta.json reports opstamp {} payload {:?}; the last commit that returned Ok had opstamp {o} payload {p:?}", m.opstamp, m.payload)));
     }
     Ok(())
 }
